@@ -733,10 +733,14 @@ def run_client_case(ctx, case):
         ctx.fail("C17.client_extension_offer_vs_option", detail)
     offered_params = set()
     if ext_offer:
-        exts = wsref.parse_extensions(",".join(ext_offer))
+        try:
+            exts = wsref.parse_extensions(",".join(ext_offer))
+        except wsref.RefError as e:
+            exts = []
+            ctx.fail("C17.client_extension_offer", dict(detail, error=str(e)))
         if [n for n, _ in exts] != ["permessage-deflate"]:
             ctx.fail("C17.client_extension_offer", detail)
-        offered_params = {k for k, _ in exts[0][1]}
+        offered_params = {k for k, _ in exts[0][1]} if exts else set()
     proto_offer = req.get_all("Sec-WebSocket-Protocol")
     want_offer = case["offer_protocols"]
     got_offer = [t.strip() for v in proto_offer for t in v.split(",")]
